@@ -48,6 +48,8 @@ def classify(kind, case):
             w = "".join(c.get("Writes", []))
             if "\r\n\r\n" in w or "\r\r" in w:
                 return "sse-event-terminated-by-cr-or-crlf-not-flushed"
+            if "\n\r" in w:
+                return "sse-event-with-mixed-line-ends-not-flushed"
             return "sse-event-not-flushed"
         return "flush-not-at-pattern-boundary"
     if kind == "scases":
